@@ -217,14 +217,16 @@ impl Spec for C15Spec {
         exec::exec(db, op)
     }
     fn step(&self, _pre: &Database, _m: &(), op: &str, post: &Database, out: &Out, hist: &[String], rep: &Report) -> Option<()> {
-        if let Out::Panic(msg) = out {
-            rep.violation(&[("aspect", "panic".into()), ("last", hist_features(hist).1)], format!("`{}` panicked: {}", op, msg), case(hist));
-            return None;
-        }
+        // a panicking statement is property C24's business; what matters here is whether the state
+        // it left behind still has indexes that mirror the tables (checked below), then the branch ends
+        let panicked = out.is_panic();
         let lookup = |name: &str| index_sql_from_meta(post, name);
         if let Some((aspect, what)) = check_state(post, &lookup) {
             let (feat, last) = hist_features(hist);
             rep.violation(&[("aspect", aspect), ("history", feat), ("last", last)], format!("after {:?}: {}", hist, what), case(hist));
+            return None;
+        }
+        if panicked {
             return None;
         }
         Some(())
